@@ -363,6 +363,9 @@ func chunkings(id string) [][][]string {
 		{},
 		{{p(1), "NL", p(2), "NL", p(3)}},
 		{{p(1)}, {"NL"}, {p(2)}},
+		{{}},                      // one zero-length write and nothing else
+		{{}, {p(1), "NL"}},        // a zero-length write first
+		{{p(1), "NL"}, {}, {p(2)}}, // a zero-length write between two chunks
 	}
 }
 
@@ -375,6 +378,12 @@ func Scenarios(r *rand.Rand, n int) []Scenario {
 	// fixed core: every mode with two commands and the first chunkings
 	for _, m := range modes {
 		scs = append(scs, Scenario{Mode: m, Cmds: []Cmd{{ID: "a", Chunks: chunkings("a")[1]}, {ID: "b", Chunks: chunkings("b")[2], Fail: true}}})
+	}
+	// zero-length writes: a command whose only write is empty (succeeding and failing), one that starts with an
+	// empty write, one with an empty write between two chunks, next to a command with ordinary output
+	for _, m := range modes {
+		scs = append(scs, Scenario{Mode: m, Cmds: []Cmd{{ID: "a", Chunks: chunkings("a")[8]}, {ID: "b", Chunks: chunkings("b")[9], Fail: true}}})
+		scs = append(scs, Scenario{Mode: m, Cmds: []Cmd{{ID: "a", Chunks: chunkings("a")[8], Fail: true}, {ID: "b", Chunks: chunkings("b")[10]}}})
 	}
 	for len(scs) < n {
 		m := modes[r.Intn(len(modes))]
@@ -399,7 +408,7 @@ func Check(tier string) int {
 	rp := rep.NewReporter("C17")
 	kf := rep.LoadFindings()
 	OpenKFs = kf.OpenKFsOf("out")
-	nsc, dfs, nseeds := 24, 40, 2
+	nsc, dfs, nseeds := 36, 40, 2
 	if tier == "thorough" {
 		nsc, dfs, nseeds = 150, 400, 6
 	}
